@@ -21,6 +21,21 @@ STD_SPECS = r"""
 // ---------------------------------------------------------------- assumed contracts of std (TRUSTED, listed in evidence)
 pub assume_specification<'x>[ <String as PartialEq<&str>>::eq ](a: &String, b: &&str) -> (r: bool) ensures r == (a@ == b@);
 pub assume_specification[ <String as PartialEq<str>>::eq ](a: &String, b: &str) -> (r: bool) ensures r == (a@ == b@);
+// `&String == &str` goes through the blanket `&A == &B` impl, whose vstd spec refers to PartialEqSpec<str> for String
+#[verifier::external_body]
+pub proof fn axiom_string_str_eq()
+    ensures
+        <String as vstd::std_specs::cmp::PartialEqSpec<str>>::obeys_eq_spec(),
+        forall|a: String, b: &str| #[trigger] <String as vstd::std_specs::cmp::PartialEqSpec<str>>::eq_spec(&a, b) == (a@ == b@),
+{}
+// equality of pairs (the derived tuple PartialEq): componentwise; instantiated for (String, String)
+pub uninterp spec fn tup_eq<A, B>(a: (A, B), b: (A, B)) -> bool;
+pub assume_specification<A: PartialEq, B: PartialEq>[ <(A, B) as PartialEq>::eq ](a: &(A, B), b: &(A, B)) -> (r: bool)
+    ensures r == tup_eq::<A, B>(*a, *b);
+#[verifier::external_body]
+pub proof fn axiom_tup_eq_strings()
+    ensures forall|a: (String, String), b: (String, String)| #[trigger] tup_eq::<String, String>(a, b) == (a.0@ == b.0@ && a.1@ == b.1@)
+{}
 pub uninterp spec fn sp_contains<P>(s: Seq<char>, p: P) -> bool;
 pub uninterp spec fn sp_starts_with<P>(s: Seq<char>, p: P) -> bool;
 pub assume_specification<P: core::str::pattern::Pattern> [str::contains::<P>] (_0: &str, _1: P) -> (r: bool)
@@ -190,10 +205,38 @@ def annotate_fn(sp, fn, spec, obligations, prefix):
         k = cands[0]
         used.add(k)
         lp = loops[k]
-        if U.contains_continue(fn, lp["open"] + 1, lp["close"]) and not l.get("allow_continue"):
-            raise C.Unsupported("%s: `continue` inside for loop over %s (needs the R5 desugaring)" % (fn.name, lp["expr"]))
         binder = l.get("binder", "it%d" % li)
         first = ts[lp["for"]] if lp["label"] is None else lp["label"]
+        if l.get("r5"):
+            # R5: `for PAT in EXPR { BODY }` -> the Rust Reference's own definition of `for`
+            #     let mut it = IntoIterator::into_iter(EXPR); loop { match it.next() { Some(PAT) => { BODY } None => break } }
+            b = binder
+            seq = l.get("seq", "(%s)@" % lp["expr"])
+            sub = lambda t: t.replace("$k", b + "_k").replace("$s", b + "_s").replace("$it", b)
+            head = ""
+            if l.get("pre"):
+                head += l["pre"].strip() + "\n"
+            head += "let ghost %s_s = %s;\n" % (b, seq)
+            head += "let mut %s = (%s).into_iter();\n" % (b, lp["expr"])
+            head += "let ghost mut %s_k: int = 0;\n" % b
+            label = (fn.src[lp["label"].start:lp["label"].end] + ": ") if lp["label"] is not None else ""
+            inv = "0 <= %s_k <= %s_s.len(), %s.remaining() == %s_s.subrange(%s_k, %s_s.len() as int)" % (b, b, b, b, b, b)
+            if l.get("inv"):
+                inv += ",\n        " + sub(l["inv"].strip().rstrip(","))
+            ens = "%s_k == %s_s.len()" % (b, b)
+            if l.get("ensures"):
+                ens += ", " + sub(l["ensures"].strip().rstrip(","))
+            head += "%sloop\n    invariant %s,\n    ensures %s,\n    decreases %s_s.len() - %s_k,\n" % (label, inv, ens, b, b)
+            sp.rewrite(first.start, ts[lp["open"]].start, head, "R5:%s.loop%d" % (prefix, li))
+            sp.after_tok(ts[lp["open"]], " match %s.next() { Some(%s) => { proof { %s_k = %s_k + 1; } %s " % (
+                b, lp["pat"], b, b, sub(l.get("body", "").strip())), "R5:open")
+            sp.before_tok(ts[lp["close"]], " } None => break, } ", "R5:close")
+            obligations.append(("inv:%s.loop%d" % (prefix, li), "R5-desugared loop over `%s`: %s" % (lp["expr"], " ".join(inv.split())[:200])))
+            if l.get("after"):
+                sp.after_tok(ts[lp["close"]], "\n" + sub(l["after"].strip()) + "\n", "ghost:after-loop")
+            continue
+        if U.contains_continue(fn, lp["open"] + 1, lp["close"]) and not l.get("allow_continue"):
+            raise C.Unsupported("%s: `continue` inside for loop over %s (needs the R5 desugaring)" % (fn.name, lp["expr"]))
         if l.get("pre"):
             sp.before_tok(first, l["pre"].strip() + "\n", "ghost:pre-loop")
         sp.before_tok(ts[lp["in"] + 1], "%s: " % binder, "loop:binder")
@@ -205,6 +248,21 @@ def annotate_fn(sp, fn, spec, obligations, prefix):
             sp.after_tok(ts[lp["open"]], " " + l["body"].strip().replace("$it", binder) + " ", "ghost:loop-body")
         if l.get("end"):
             sp.before_tok(ts[lp["close"]], " " + l["end"].strip().replace("$it", binder) + " ", "ghost:loop-end")
+        if l.get("after"):
+            sp.after_tok(ts[lp["close"]], "\n" + l["after"].strip() + "\n", "ghost:after-loop")
+    ploops = U.find_plain_loops(fn)
+    for li, l in enumerate(spec.get("plain_loops", [])):
+        k = l.get("nth", li)
+        if k >= len(ploops):
+            raise C.LostAnchor("%s: no loop #%d" % (fn.name, k))
+        lp = ploops[k]
+        first = ts[lp["kw"]] if lp["label"] is None else lp["label"]
+        if l.get("pre"):
+            sp.before_tok(first, l["pre"].strip() + "\n", "ghost:pre-loop")
+        sp.before_tok(ts[lp["open"]], "\n    %s\n" % l["clauses"].strip(), "ob:inv:%s.ploop%d" % (prefix, li))
+        obligations.append(("inv:%s.ploop%d" % (prefix, li), " ".join(l["clauses"].split())[:200]))
+        if l.get("body"):
+            sp.after_tok(ts[lp["open"]], " " + l["body"].strip() + " ", "ghost:loop-body")
         if l.get("after"):
             sp.after_tok(ts[lp["close"]], "\n" + l["after"].strip() + "\n", "ghost:after-loop")
     if spec.get("after"):
